@@ -36,9 +36,14 @@ def run(ctx: Ctx):
     res.rule("CTOR-VALIDATES", "in every wrapper __init__, each path reaches the first store of a state attribute only after calling the family's validator on the unmodified operand; shape and rank are taken from its result", floor=6)
     res.rule("VIEW-DELEGATES", "every delegating view (function or wrapper method) passes its operand and mode unmodified to the family's dense reconstruction / sibling view and wraps the result only in layout functions", floor=28)
     res.assume(
-        "NOT decided: that cp_to_tensor, cp_to_unfolded, cp_norm, tt_to_tensor, tr_to_tensor, parafac2_to_slice compute the defining contraction; that the validators' individual checks are the right ones",
+        "HOMOGENEITY decides only the multilinearity degree of the reconstructions (a necessary condition): wrong indices, wrong transposes or wrong coefficients with the right degree are NOT decided; neither is whether the validators' individual checks are the right ones",
+        "HOMOGENEITY trusts the degree specification of the tenalg primitives (khatri_rao / kronecker / multi_mode_dot / mode_dot / dot / einsum: sum of the operand degrees minus the skipped operand)",
         "layout functions are pure re-arrangements (C01)",
     )
+    from .homog import run_homogeneity
+
+    res.rule("HOMOGENEITY", "dimensional analysis: every value returned by cp_to_tensor / cp_to_unfolded / cp_to_vec / cp_norm, tucker_to_tensor / _unfolded / _vec, tt_to_tensor / tt_to_vec, tr_to_tensor and parafac2_to_slice has the homogeneity degree of the defining contraction (degree 1 in the weights or core, degree 1 in every factor; mask degree 1 when given), for weights present and absent, on every return path", floor=20)
+    ctx.guarded(run_homogeneity, ctx, "HOMOGENEITY", ("tensorly.cp_tensor", "tensorly.tucker_tensor", "tensorly.tt_tensor", "tensorly.tr_tensor", "tensorly.parafac2_tensor"))
     for modname, (cls, validator, dense, prefix) in FAMILIES.items():
         mod = repo.module(modname)
         ci = repo.cls(f"{modname}.{cls}")
